@@ -87,6 +87,8 @@ def spec_tags(beh):
     tags = set(beh["dev"])
     if any(s["k"] == "drop" for s in beh["stmts"]):
         tags.add("drop_table")
+    if any(s["k"] == "upsert" for s in beh["stmts"]):
+        tags.add("upsert_tail")
     return tags
 
 
